@@ -13,13 +13,13 @@ TRUST = ('Static rule conformance decided from /repo source on every run. '
 P = {
  'C01': dict(
   tech='effect analysis (shared-mutable-state / who-writes-what) over the parse path, incl. ply lexer hand-off',
-  text='Sufficient structural condition: no mutable location is shared between two parses of one engine (fresh ply lexer per call or one lock shared by every engine built around that lexer, token/grammar actions store only into per-call objects and never read the per-parse parser state of ply, error hook raises so ply never enters recovery; methods of the lexer, parser, factory and engine classes store into the instance and never into class-level or module-level containers shared by every engine of the process; clone() of a repository class that stands in for the lexer shares no mutable attribute with the original). If the rules pass, the property holds for all texts, histories and schedules given ply\'s documented contract.',
+  text='Sufficient structural condition: no mutable location is shared between two parses of one engine (fresh ply lexer per call or one lock shared by every engine built around that lexer, token/grammar actions store only into per-call objects and never read the per-parse parser state of ply, error hook raises so ply never enters recovery; methods of the lexer, parser, factory and engine classes store into the instance and never into class-level or module-level containers shared by every engine of the process; clone() of a repository class that stands in for the lexer shares no mutable attribute with the original; no method of the ply lexer that mutates a container its clones share -- derived from ply/lex.py on every run -- is called; no interpreter-wide setter such as sys.set_int_max_str_digits is called). If the rules pass, the property holds for all texts, histories and schedules given ply\'s documented contract.',
   note=TRUST + 'ply 3.11 LRParser.parse keeps its stacks in locals; Lexer.clone() gives an independent cursor.',
   ref='6/C01'),
  'C02': dict(
   cat='translation_validation',
   tech='LALR-table conformance query (operator table -> generated grammar -> automaton), per configuration; no text is ever parsed',
-  text='Translation validation of the table->grammar generator: for each analysed operator table the generated LALR automaton\'s shift/reduce decision at every (completed operator item, operator look-ahead) pair is compared with what the table dictates; these decisions are the only points where two parse trees of one token string can diverge, so conformance decides the property for every expression of that engine. Quantifies over configurations by enumeration (default, legacy, and a family of insert_operator tables in the thorough tier). The reduce actions are evaluated abstractly for every operator symbol of the standard table, with and without an alias, and must build the same kind of node for all of them.',
+  text='Translation validation of the table->grammar generator: for each analysed operator table the generated LALR automaton\'s shift/reduce decision at every (completed operator item, operator look-ahead) pair is compared with what the table dictates; these decisions are the only points where two parse trees of one token string can diverge, so conformance decides the property for every expression of that engine. Quantifies over configurations by enumeration (default, legacy, and a family of insert_operator tables in the thorough tier). The reduce actions are evaluated abstractly for every operator symbol of the standard table, with and without an alias, and must build the same kind of node for all of them. The operator words of the default table are those the language reference lists.',
   note=TRUST + 'ply\'s LALR construction and LR driver. Tables outside the analysed family are validated per output, not proved for all inputs.',
   ref='6/C02'),
  'C03': dict(
@@ -29,7 +29,7 @@ P = {
   ref='6/C03'),
  'C04': dict(
   tech='scope-discipline dataflow (reaching definitions of the context handed to payloads / lambdas / writers)',
-  text='Necessary clauses only (scope discipline): each payload call runs in a child context created per invocation; lambdas evaluate in a child of their definition context; context-writing library functions write only into their own injected context; the collection overload of the member operator answers every element through the member-operator delegate; a named unpack makes no positional binding; get_delegate, evaluated abstractly on 60 definition/call situations, creates one child context per invocation and converts every argument in it. Equality with a reference interpreter is NOT decided.',
+  text='Necessary clauses only (scope discipline): each payload call runs in a child context created per invocation; lambdas evaluate in a child of their definition context; context-writing library functions write only into their own injected context; the collection overload of the member operator answers every element through the member-operator delegate; a named unpack makes no positional binding; lambdas evaluated in a callee-chosen context are a closed reviewed list and binders store eagerly evaluated values; get_delegate, evaluated abstractly on 60 definition/call situations, creates one child context per invocation and converts every argument in it. Equality with a reference interpreter is NOT decided.',
   note=TRUST + 'decides the named structural clauses, not the values computed.',
   ref='6/C04'),
  'C05': dict(
@@ -49,7 +49,7 @@ P = {
   ref='6/C07'),
  'C08': dict(
   tech='declared-type vs body-consumption analysis of every registered overload; must-pass-through for quota/limit calls',
-  text='Decides that every parameter whose elements a library function consumes is declared with a limiting smart type (or consumed through limit_iterable), that the finaliser iterates only through the limiter, that runner.call and SmartType.convert apply the quota on every path, that repetition operators check before allocating, that limit_memory_usage measures every sample, and that no eager consumer is applied to an element of a collection argument (elements are not limit-wrapped). The arithmetic of the bounds is not decided.',
+  text='Decides that every parameter whose elements a library function consumes is declared with a limiting smart type (or consumed through limit_iterable), that the finaliser iterates only through the limiter, that runner.call and SmartType.convert apply the quota on every path, that repetition operators check before allocating, that limit_memory_usage measures every sample, that no eager consumer is applied to an element of a collection argument (elements are not limit-wrapped), and that loops growing a local container per element apply the quota inside the loop. The arithmetic of the bounds is not decided.',
   note=TRUST + 'limit_iterable / limit_memory_usage bodies are checked structurally (raise inside the loop / before return), their numeric comparisons are not.',
   ref='6/C08'),
  'C09': dict(
@@ -59,22 +59,22 @@ P = {
   ref='6/C09'),
  'C10': dict(
   tech='abstract interpretation of convert_output_data / convert_input_data over a finite container-shape domain x option flags',
-  text='Type-level behaviour of the finaliser on every container shape (depth 2, thorough 3) under the 4 option combinations: no unhashable-element error, output plain for those options; every statement result passes through the finaliser, which hands the value out unconverted exactly when the host set yaql.convertOutputData to false (81 option scenarios evaluated abstractly); the converters keep no id()-keyed cache. Equality of values is not decided.',
+  text='Type-level behaviour of the finaliser on every container shape (depth 2, thorough 3) under the 4 option combinations: no unhashable-element error, output plain for those options; every statement result passes through the finaliser, which hands the value out unconverted exactly when the host set yaql.convertOutputData to false (81 option scenarios evaluated abstractly); the converters keep no id()-keyed cache; the engine keeps a copy of its options; a layer that binds a variable to null is not skipped (shared with C17). Equality of values is not decided.',
   note=TRUST + 'ABC memberships of builtin container kinds are looked up from the interpreter.',
   ref='6/C10'),
  'C11': dict(
   tech='evaluation-site enumeration + control-dependence / at-most-once path analysis of lazy operands',
-  text='Decides: argument evaluation sites sit in one sweep outside candidate loops and are unreachable from matching code; the lazy argument set is keyed by index / call keyword like the sweep; the functions named in the statement declare their operands lazy and call the unselected operand only under the selecting test; per-element callables are not applied from (anything reachable from) comparison methods; positional arguments are swept before keyword arguments; the callable built for a Lambda evaluates on every invocation; the plumbing every collection argument travels through does not read ahead of its consumer; in every call situation each eager argument is evaluated exactly once, after mapping and before any delegate is requested, positional before keyword, and lazy arguments are not evaluated. Full trace equality with an order model is not decided.',
+  text='Decides: argument evaluation sites sit in one sweep outside candidate loops and are unreachable from matching code; the lazy argument set is keyed by index / call keyword like the sweep; the functions named in the statement declare their operands lazy and call the unselected operand only under the selecting test; per-element callables are not applied from (anything reachable from) comparison methods; positional arguments are swept before keyword arguments; the callable built for a Lambda evaluates on every invocation; the plumbing every collection argument travels through does not read ahead of its consumer; in every call situation each eager argument is evaluated exactly once, after mapping and before any delegate is requested, positional before keyword, and lazy arguments are not evaluated; no expression node re-dispatches its evaluation from an exception handler; a stored per-group lambda is applied at most once on a path without a failed application. Full trace equality with an order model is not decided.',
   note=TRUST + 'necessary clauses.',
   ref='6/C11'),
  'C12': dict(
   tech='declaration-level checks: keyword-name language, declared (AST) vs effective (reflected) registry diff, kind predicate def-use, bounded LALR-table simulation of argument-list shapes with abstractly interpreted actions',
-  text='Necessary conditions at declaration level: every visible parameter has a writable, unique keyword name; the registry recovered from decorators agrees with the effective registry (name, kind, no_kwargs, parameter order, aliases, laziness); runner.call tests is_function / is_method on the right branches; on the generated LALR tables every bounded pattern of value/empty positional slots is accepted and yields one entry per slot; the lazy set is keyed like the sweep; hidden parameters of **kwargs functions are unwritable names; clone() copies parameter definitions; call() forwards kwargs keys verbatim; argument mapping never decides presence of a keyword by comparing a looked-up value with None; kind predicate, lazy keys and the mapping of positional / keyword / null-valued keyword arguments are also decided by abstract evaluation of the resolution procedure. Result equality across spellings is not decided.',
+  text='Necessary conditions at declaration level: every visible parameter has a writable, unique keyword name; the registry recovered from decorators agrees with the effective registry (name, kind, no_kwargs, parameter order, aliases, laziness); runner.call tests is_function / is_method on the right branches; on the generated LALR tables every bounded pattern of value/empty positional slots is accepted and yields one entry per slot; the lazy set is keyed like the sweep; hidden parameters of **kwargs functions are unwritable names; clone() copies parameter definitions; call() forwards kwargs keys verbatim; argument mapping never decides presence of a keyword by comparing a looked-up value with None; kind predicate, lazy keys and the mapping of positional / keyword / null-valued keyword arguments are also decided by abstract evaluation of the resolution procedure; the keyword filter of call() keeps exactly the names is_keyword accepts. Result equality across spellings is not decided.',
   note=TRUST + 'reflection executes import-time and registration code only, never runner.call.',
   ref='6/C12'),
  'C13': dict(
   tech='iterator-linearity (consumed-at-most-once per path) analysis of iterator-admitting parameters',
-  text='Necessary clauses: no local that means nothing-yet while it is None is bound to a value of the evaluation (null is a value); a whole-stream read of a cursor that an earlier read ran to its end sees nothing; and along every path a parameter that may hold a one-shot iterator is consumed at most once unless first re-bound to a re-iterable or an explicit cursor, and the premise that utils.memorize hands out an independent cursor per pass. Agreement with a reference model is not decided.',
+  text='Necessary clauses: no local that means nothing-yet while it is None is bound to a value of the evaluation (null is a value); a whole-stream read of a cursor that an earlier read ran to its end sees nothing; FrozenDict.__hash__ combines its items commutatively; a generator does not change in place a container it has yielded; and along every path a parameter that may hold a one-shot iterator is consumed at most once unless first re-bound to a re-iterable or an explicit cursor, and the premise that utils.memorize hands out an independent cursor per pass. Agreement with a reference model is not decided.',
   note=TRUST + 'one clause only.',
   ref='6/C13'),
  'C14': dict(
@@ -94,12 +94,12 @@ P = {
   ref='6/C16'),
  'C17': dict(
   tech='interface-discipline checks across the three context classes (normalisation, own-layer, ask_parent gating, exclusivity, merge)',
-  text='Necessary clauses: every _data access uses a normalised key; membership/keys never reach the parent; parent use is gated by ask_parent; collect_functions stops at exclusive layers (every override is held to the same obligations); create_child_context of every context class builds the child on the context itself; writes go to the own layer (a multi-context always writes its first member); lookups are pure; MultiContext merges all members. Equivalence with a flattened model over histories is not decided.',
+  text='Necessary clauses: every _data access uses a normalised key; membership/keys never reach the parent; parent use is gated by ask_parent; collect_functions stops at exclusive layers (every override is held to the same obligations); create_child_context of every context class builds the child on the context itself; the exclusive flag is asked under the resolved name; a layer is probed with a private marker, never None or the caller default; writes go to the own layer (a multi-context always writes its first member); lookups are pure; MultiContext merges all members. Equivalence with a flattened model over histories is not decided.',
   note=TRUST + 'necessary clauses.',
   ref='6/C17'),
  'C18': dict(
   tech='effect analysis: per-call taint into shared objects / globals / class attributes over all evaluation-time code',
-  text='Sufficient condition: no per-call information is stored in a location that outlives the call (expression nodes, definitions, smart types, engine, shared contexts, module globals, class attributes, mutable defaults); stateful lazy helper classes are instantiated only inside payload bodies; no in-place write on argument data (shared with C09); lambda arguments are published into a child context made per invocation (shared with C04).',
+  text='Sufficient condition: no interpreter-wide setter is called; no per-call information is stored in a location that outlives the call (expression nodes, definitions, smart types, engine, shared contexts, module globals, class attributes, mutable defaults); stateful lazy helper classes are instantiated only inside payload bodies; no in-place write on argument data (shared with C09); lambda arguments are published into a child context made per invocation (shared with C04).',
   note=TRUST + 'CPython makes individual attribute/dict reads atomic.',
   ref='6/C18'),
  'C19': dict(
